@@ -391,3 +391,112 @@ def run(m):
     v = [x for x in r["violations"] if "nil-literal" not in x["witness"]]
     return {"violated": bool(v), "observed": [(x["source"], x.get("serialised")) for x in v[:3]]}
 '''
+
+
+# ---------------------------------------------------------------- block containers print their
+# ---------------------------------------------------------------- children in source order
+# (the parser builds the child lists in source order and the render methods walk them in list
+# order, so a printer that regroups or reorders them changes which block runs)
+
+AST_M = "liquid.ast"
+CASE_M = "liquid.builtin.tags.case_tag"
+IF_M = "liquid.builtin.tags.if_tag"
+UNLESS_M = "liquid.builtin.tags.unless_tag"
+
+REPLAY_ORDER = r'''
+def run(m):
+    from liquid import Environment
+    env = Environment()
+    bad = []
+    for src, data in (("{% case x %}{% else %}D{% when 1 %}one{% endcase %}", {"x": 1}),
+                      ("{% case x %}{% when 2 %}two{% else %}D{% when 1 %}one{% else %}E{% endcase %}", {"x": 1}),
+                      ("{% if a %}A{% elsif b %}B{% elsif c %}C{% else %}D{% endif %}", {"b": True, "c": True}),
+                      ("{% unless a %}A{% elsif b %}B{% elsif c %}C{% else %}D{% endunless %}", {"a": True, "c": True, "b": True}),
+                      ("a{{ x }}b{% assign x = 2 %}{{ x }}", {"x": 1})):
+        t = env.from_string(src)
+        t2 = env.from_string(str(t))
+        if t.render(**data) != t2.render(**data):
+            bad.append((src, str(t)))
+    return {"violated": bool(bad), "observed": bad[:3], "witness": "children-reordered"}
+'''
+
+
+def _opaque_child(c, cls, name, **fields):
+    o = c.obj(cls, name, token=NONE, **fields)
+    return o
+
+
+def _s(c, ref):
+    """the (opaque) text a child prints as"""
+    return z3.Function("str_of_ref", I, I, S)(z3.IntVal(ref.addr), z3.IntVal(c.st.world))
+
+
+def _order_contract(target, label, mk):
+    @contract(target, prop="C04", name=f"{target.split(':')[1]}[{label}: children are printed in source order]")
+    def oc(c):
+        c.opaque_str_classes |= {"BlockNode", "ConditionalBlockNode", "MultiExpressionBlockNode", "Expression", "Node", "BooleanExpression"}
+        self, expected = mk(c)
+        c.call(self_val=self)
+        c.raises()
+        c.ensures("text-is-the-tag-markup-around-the-children-in-list-order", lambda r: r.value.t == z3.Concat(*expected) if len(expected) > 1 else r.value.t == expected[0])
+        c.assume_note("children print through their own printers (opaque texts here; their own contracts are the other C04 obligations)")
+        c.replay("code", code=REPLAY_ORDER)
+
+
+def _case_orders():
+    for n in range(0, 4):
+        for kinds in itertools.product(("when", "else"), repeat=n):
+            def mk(c, kinds=kinds):
+                expr = c.obj("liquid.expression:Expression", "case_expr", token=NONE)
+                blocks, parts = [], [z3.StringVal("{% case "), None, z3.StringVal(" %}\n")]
+                for i, k in enumerate(kinds):
+                    if k == "when":
+                        b = c.obj(AST_M + ":MultiExpressionBlockNode", f"when{i}", token=NONE, blank=c.bool(f"blank{i}"), block=c.obj(AST_M + ":BlockNode", f"when{i}_block", token=NONE, blank=c.bool(f"wblank{i}")))
+                        blocks.append(b)
+                        parts.append(("s", b))
+                    else:
+                        b = c.obj(AST_M + ":BlockNode", f"else{i}", token=NONE, blank=c.bool(f"blank{i}"))
+                        blocks.append(b)
+                        parts.append(z3.StringVal("{% else %}"))
+                        parts.append(("s", b))
+                parts.append(z3.StringVal("{% endcase %}"))
+                self = c.obj(CASE_M + ":CaseNode", "case", token=NONE, expression=expr, blocks=c.st.alloc(HList(items=blocks)), blank=c.bool("blank"))
+                parts[1] = ("s", expr)
+                return self, [(_s(c, p[1]) if isinstance(p, tuple) else p) for p in parts]
+            _order_contract(CASE_M + ":CaseNode.__str__", "blocks=" + (",".join(kinds) or "none"), mk)
+
+
+_case_orders()
+
+
+def _if_orders(mod, cname, open_, close):
+    for n in range(0, 4):
+        for has_default in (False, True):
+            def mk(c, n=n, has_default=has_default):
+                cond = c.obj(LOGICAL + ":BooleanExpression", "condition", token=NONE)
+                cons = c.obj(AST_M + ":BlockNode", "consequence", token=NONE, blank=c.bool("cblank"))
+                alts = [c.obj(AST_M + ":ConditionalBlockNode", f"alt{i}", token=NONE, blank=c.bool(f"ablank{i}")) for i in range(n)]
+                default = c.obj(AST_M + ":BlockNode", "default", token=NONE, blank=c.bool("dblank")) if has_default else NONE
+                self = c.obj(mod + ":" + cname, "node", token=NONE, condition=cond, consequence=cons, alternatives=c.st.alloc(HList(items=alts)), default=default, blank=c.bool("blank"))
+                parts = [z3.StringVal("{% " + open_ + " "), _s(c, cond), z3.StringVal(" %}"), _s(c, cons)] + [_s(c, a) for a in alts]
+                if has_default:
+                    parts += [z3.StringVal("{% else %}"), _s(c, default)]
+                parts.append(z3.StringVal("{% " + close + " %}"))
+                return self, parts
+            _order_contract(f"{mod}:{cname}.__str__", f"alternatives={n},else={'yes' if has_default else 'no'}", mk)
+
+
+_if_orders(IF_M, "IfNode", "if", "endif")
+_if_orders(UNLESS_M, "UnlessNode", "unless", "endunless")
+
+
+def _block_orders():
+    for n in range(0, 4):
+        def mk(c, n=n):
+            kids = [c.obj(AST_M + ":Node", f"child{i}", token=NONE, blank=c.bool(f"kblank{i}")) for i in range(n)]
+            self = c.obj(AST_M + ":BlockNode", "block", token=NONE, nodes=c.st.alloc(HList(items=kids)), blank=c.bool("blank"))
+            return self, ([_s(c, k) for k in kids] or [z3.StringVal("")])
+        _order_contract(AST_M + ":BlockNode.__str__", f"children={n}", mk)
+
+
+_block_orders()
